@@ -90,7 +90,8 @@ def scope_model(F, placement, conflict=False):
             return ok(Sym("T:" + a0.tag))
         return TOP
 
-    return scopes, holder, chain(oracle, std_oracle)
+    from collmodel import coll_oracle
+    return scopes, holder, chain(oracle, coll_oracle, std_oracle)
 
 
 def placement_eval(F, fn, placement, extra_args=(), conflict=False, want_paths=False):
@@ -98,7 +99,8 @@ def placement_eval(F, fn, placement, extra_args=(), conflict=False, want_paths=F
     scopes, holder, oracle = scope_model(F, placement, conflict)
     args = [scopes["self"]] + list(extra_args)
     args = args[:fn.body.argc] + [TOP] * max(0, fn.body.argc - len(args))
-    it = Interp(fn.body, oracle, args, facts=F, inline=lambda k: k.startswith("mahf::state::registry::") or k.startswith("<mahf::state::registry::"))
+    from collmodel import install as _cm_install
+    it = _cm_install(Interp(fn.body, oracle, args, facts=F, inline=lambda k: k.startswith("mahf::state::registry::") or k.startswith("<mahf::state::registry::")))
     paths = it.run()
     prims = set()
     rets = set()
@@ -228,10 +230,11 @@ def r4_push_pop(ctx):
         return TOP
 
     inl = lambda k: k.startswith("mahf::state::registry::") or k.startswith("<mahf::state::registry::")
-    orc = chain(oracle, std_oracle)
+    from collmodel import coll_oracle as _co, install as _cm_install2
+    orc = chain(oracle, _co, std_oracle)
 
     def run(fn, args):
-        return [p for p in Interp(fn.body, orc, args, facts=F, inline=inl).run()]
+        return [p for p in _cm_install2(Interp(fn.body, orc, args, facts=F, inline=inl)).run()]
 
     me = Sym("self", {})
     me.fields[map_idx] = Sym("self.map")
